@@ -198,6 +198,9 @@ def gen_case(rng, i):
             'ph': hx(ph_t * (360.0 if phunit == 'deg' else 2 * math.pi)), 'phunit': phunit,
             'begin': [hx(x) for x in begin], 'end': [hx(x) for x in end], 'aunit': aunit, 'int_slits': int_slits,
             'npulses': rng.randint(1, 4)}
+    if rng.random() < 0.3 and mode in ('normal', 'tight', 'tdc_span', 'shifted_turns'):
+        c = int_frequencies(rng, c)
+    return c
 
 
 INT_F = {'Hz': [5, 7, 14, 28, 56, 10, 25, 60, 112, 15, 21], 'kHz': [1, 2, 4, 7, 8], '1/min': [840, 600, 420, 1500, 3000, 850]}
